@@ -6,7 +6,7 @@ package main
 //
 // Concrete op syntax (replay files contain exactly these lines):
 //   P seed n origin cacheLen cacheMem maxProc mode emptyPct disciplined    (first line: parameters; the chain is derived from them)
-//   S from hi hi ...         Schedule(headers H[hi]..., from)
+//   S from hi hi ...         Schedule(headers H[hi]..., from); from = * means offset + headers accepted so far
 //   RB|RR peer count         ReserveBodies / ReserveReceipts
 //   DB|DR peer ref ref ...   DeliverBodies / DeliverReceipts; ref = t<hi> (the tx list / receipt list of H[hi]),
 //                            g<k> (garbage list k), e (empty list)
@@ -78,14 +78,15 @@ type hent struct {
 }
 
 type universe struct {
-	H       []hent // 0..n-1 = the honest chain; then malformed extras
-	n       int
-	garbTx  [][]*types.Transaction
-	garbRc  [][]*types.Receipt
-	byHash  map[common.Hash]int
-	hashIDs map[common.Hash]int
-	rootIDs map[common.Hash]int
-	hcache  map[*types.Header]common.Hash
+	H         []hent // 0..n-1 = the honest chain; then malformed extras
+	n         int
+	garbTx    [][]*types.Transaction
+	garbRc    [][]*types.Receipt
+	byHash    map[common.Hash]int
+	hashIDs   map[common.Hash]int
+	rootIDs   map[common.Hash]int
+	hcache    map[*types.Header]common.Hash
+	extraBase []int // extraBase[k] = chain position the extra H[n+k] competes with
 }
 
 func mkTxs(r *vh.RNG, k int) []*types.Transaction {
@@ -136,11 +137,12 @@ func buildUniverse(p params) *universe {
 		parent = h.Hash()
 	}
 	// malformed extras, each tied to a chain position
-	nx := 6 + p.n/20
+	nx := 6 + p.n/4
 	for k := 0; k < nx; k++ {
 		i := r.Intn(p.n)
+		u.extraBase = append(u.extraBase, i)
 		base := u.H[i]
-		switch r.Intn(3) {
+		switch r.Weighted([]int{15, 50, 35}) {
 		case 0: // sibling: same number and parent, other content
 			txs := mkTxs(r, r.Range(0, 2))
 			u.H = append(u.H, hent{mkHeader(new(big.Int).Set(base.h.Number), base.h.ParentHash, txs, nil, []byte{byte(k), 1}), txs, nil, "fork"})
@@ -208,20 +210,20 @@ type failure struct {
 }
 
 type execT struct {
-	p        params
-	u        *universe
-	vq       *downloader.VerifQueue
-	drv      *vh.Driver
-	accepted []*types.Header // everything Schedule reported as inserted, in order
-	returned []*downloader.VerifResult
+	p           params
+	u           *universe
+	vq          *downloader.VerifQueue
+	drv         *vh.Driver
+	accepted    []*types.Header // everything Schedule reported as inserted, in order
+	returned    []*downloader.VerifResult
 	linkChecked int
-	lastDump *downloader.VerifDump
-	goFailed bool // the real queue returned errInvalidChain at some point
-	lastReq  map[string][]int
-	prevReq  map[string][]int
-	nOps     int
-	faults   map[string]int
-	dist     map[string]int
+	lastDump    *downloader.VerifDump
+	goFailed    bool // the real queue returned errInvalidChain at some point
+	lastReq     map[string][]int
+	prevReq     map[string][]int
+	nOps        int
+	faults      map[string]int
+	dist        map[string]int
 }
 
 func newExec(p params, u *universe, drv *vh.Driver) (*execT, error) {
@@ -399,6 +401,9 @@ func (e *execT) do(op string) (fl *failure) {
 		switch f[0] {
 		case "S":
 			from, _ := strconv.ParseUint(f[1], 10, 64)
+			if f[1] == "*" { // the downloader's discipline: origin + headers accepted so far
+				from = e.p.origin + uint64(len(e.accepted))
+			}
 			var hs []*types.Header
 			var hl []string
 			for _, a := range f[2:] {
